@@ -89,7 +89,7 @@ def constCheck (ty : CTy) (v : Val) : R Val :=
     | .other, _ => inval .constant
 
 /-- `<type> NAME = <expression>`: the type is constructed before the expression is visited -/
-def constStatement (env : Env) (ty : CTy) (e : Expr) : R Val :=
+def constStatement [StrNorm] (env : Env) (ty : CTy) (e : Expr) : R Val :=
   if !ty.wf then inval .typeParam else
   match eval env e with
   | .error x => .error x
